@@ -236,7 +236,7 @@ func defaultPure(name string) bool {
 	switch {
 	case strings.HasPrefix(name, "(time.Time)."), strings.HasPrefix(name, "strings."), strings.HasPrefix(name, "builtin:len"), strings.HasPrefix(name, "builtin:cap"),
 		strings.HasSuffix(name, "asn1.ObjectIdentifier).Equal"), strings.HasSuffix(name, "asn1.ObjectIdentifier).String"),
-		strings.HasPrefix(name, "(net.IP)."), strings.HasPrefix(name, "(*net.IPNet).Contains"), strings.HasPrefix(name, "(*math/big.Int).BitLen"), strings.HasPrefix(name, "(*math/big.Int).Cmp"):
+		strings.HasPrefix(name, "(net.IP)."), strings.HasPrefix(name, "(*net.IPNet).Contains"):
 		return true
 	}
 	return false
